@@ -948,7 +948,13 @@ pub fn aig_doc_strategy(lit: u8, binary: bool) -> impl Strategy<Value = AigDoc> 
     let max_code = aiger_max_code(lit);
     let max_m = (max_code - 1) / 2;
     (
-        (0u64..=4, 0u64..=3, 0u64..=5),            // I, L, A
+        (
+            // binary files do not list their inputs, so a large input count is free and makes the
+            // and-gate deltas need 2-3 bytes
+            prop_oneof![6 => 0u64..=4, 2 => 60u64..=70, 1 => 100u64..=9000, 1 => 16380u64..=16390],
+            0u64..=3,
+            0u64..=5,
+        ), // I, L, A
         proptest::collection::vec(any::<u32>(), 40), // literal choices
         (0usize..=3, 0usize..=2, 0usize..=2, 0usize..=2, 0usize..=2), // O, B, C, J, F counts
         proptest::collection::vec((any::<u8>(), any::<u16>(), name_strategy()), 0..=4),
@@ -958,6 +964,12 @@ pub fn aig_doc_strategy(lit: u8, binary: bool) -> impl Strategy<Value = AigDoc> 
         any::<bool>(), // shuffle numbering for ascii
     )
         .prop_map(move |((mut i, mut l, mut a), picks, (no, nb, nc, nj, nf), syms, comment, slack, hf, shuffle)| {
+            if !binary && i > 4 {
+                i %= 5; // ASCII files list every input
+            }
+            if i > max_m {
+                i = max_m.saturating_sub(l + a);
+            }
             // respect the type's limit
             while i + l + a > max_m {
                 if a > 0 {
